@@ -227,6 +227,120 @@ theorem searchNode_eq_walkPath (s : Store) (root : Ino) (v : View) (hwf : WF s r
       simp only [List.length_cons] at this hfuel ⊢
       omega
 
+/-! ### the name the callers use -/
+
+/-- what the callers of `searchNode` take as the NAME of the entry (`pi.Part()`): the last component -/
+def PartAgrees (w : Resolved) (last : Bytes) (r : SR) : Prop :=
+  match w with
+  | .found _ _ => partOf r.pi = last
+  | .missingLast _ _ => partOf r.pi = last
+  | _ => True
+
+/-- companion of `loop_agrees`: when the descent finds the entry or only misses the last component, the iterator
+    the loop returns stands on the last component -/
+theorem loop_part {s : Store} {root : Ino} {v : View} (hwf : WF s root) (hroot : v.root = root) (m : SlMode) :
+    ∀ (rest : List Bytes) (c : Bytes) (fuel : Nat) (d : Ino) (it : Iter) (pre : Bytes) (sl : Nat),
+      (∀ x ∈ c :: rest, x ≠ [] ∧ ∀ y ∈ x, y ≠ SL) →
+      it.path = pre ++ joinWith SL (c :: rest) → it.stop1 = pre.length → fuel ≥ rest.length + 1 →
+      isDirAt s d = true →
+      (d ≠ root → ∀ md ch, s.get d = some (.dir md ch) → checkPerm md omLookup v = true) →
+      PartAgrees (walkPath s v d (c :: rest)) ((c :: rest).getLast (by simp))
+        (searchLoop s v m v.root fuel d it sl none) := by
+  intro rest
+  induction rest with
+  | nil =>
+    intro c fuel d it pre sl hall hp hst hf hdir hperm
+    obtain ⟨fuel, rfl⟩ : ∃ k, fuel = k + 1 := ⟨fuel - 1, by simp at hf; omega⟩
+    have hc := hall c (by simp)
+    obtain ⟨it1, hnext, hpart, hl, _⟩ := next_comp it pre c [] hp hst hc.1 hc.2
+    have hl := hl rfl
+    obtain ⟨md, chd, hgd⟩ := get_of_isDirAt hdir
+    rw [searchLoop]
+    by_cases hden : checkPerm md omLookup v = true
+    · cases hch : s.child d c with
+      | none => simp [walkPath, hnext, hpart, hgd, hden, hch, PartAgrees, partOf, hl]
+      | some i =>
+        have halloc := hwf.alloc d c i hch
+        cases hg : s.get i with
+        | none => simp [hg] at halloc
+        | some n =>
+          cases n <;> simp [walkPath, hnext, hpart, hgd, hden, hch, hg, PartAgrees, partOf, hl]
+    · have hden' : checkPerm md omLookup v = false := by simpa using hden
+      have hdr : d = root := Classical.byContradiction fun h => hden (hperm h md chd hgd)
+      subst hdr
+      simp [walkPath, hnext, hpart, hgd, hden', PartAgrees, hroot]
+  | cons c2 cs ih =>
+    intro c fuel d it pre sl hall hp hst hf hdir hperm
+    obtain ⟨fuel, rfl⟩ : ∃ k, fuel = k + 1 := ⟨fuel - 1, by simp at hf; omega⟩
+    have hc := hall c (by simp)
+    obtain ⟨it1, hnext, hpart, _, hl⟩ := next_comp it pre c (c2 :: cs) hp hst hc.1 hc.2
+    obtain ⟨hl, hp1, hsp1⟩ := hl (by simp)
+    obtain ⟨md, chd, hgd⟩ := get_of_isDirAt hdir
+    rw [searchLoop]
+    by_cases hden : checkPerm md omLookup v = true
+    · cases hch : s.child d c with
+      | none => simp [walkPath, hnext, hpart, hgd, hden, hch, PartAgrees, hl]
+      | some i =>
+        have halloc := hwf.alloc d c i hch
+        cases hg : s.get i with
+        | none => simp [hg] at halloc
+        | some n =>
+          cases n with
+          | dir mi chi =>
+            by_cases hpi : checkPerm mi omLookup v = true
+            · have hrec := ih c2 fuel i it1 (pre ++ c ++ [SL]) sl (fun x hx => hall x (by simp at hx ⊢; exact Or.inr hx))
+                hp1 hsp1 (by simp at hf ⊢; omega) (isDirAt_of_get hg)
+                (fun _ md' ch' hg' => by rw [hg] at hg'; cases hg'; exact hpi)
+              have hw : walkPath s v d (c :: c2 :: cs) = walkPath s v i (c2 :: cs) := by
+                simp [walkPath, hgd, hden, hch, hg]
+              rw [hw, List.getLast_cons_cons]
+              simpa [hnext, hpart, hgd, hden, hch, hg, hl, hpi] using hrec
+            · have hpi' : checkPerm mi omLookup v = false := by simpa using hpi
+              have hw : walkPath s v d (c :: c2 :: cs) = .denied := by
+                simp only [walkPath, hgd, hden, hch, hg]
+                simpa using walkPath_denied s v i c2 cs mi chi hg hpi'
+              rw [hw]
+              simp [PartAgrees]
+          | file mf df nl id => simp [walkPath, hgd, hden, hch, hg, PartAgrees]
+          | symlink ms lk => simp [walkPath, hgd, hden, hch, hg, PartAgrees]
+    · have hden' : checkPerm md omLookup v = false := by simpa using hden
+      have hdr : d = root := Classical.byContradiction fun h => hden (hperm h md chd hgd)
+      subst hdr
+      simp [walkPath, hgd, hden', PartAgrees]
+
+/-- The NAME under which the callers of `searchNode` act (`partOf r.pi`, Go: `pi.Part()`) is the last component of
+    the path, whenever the descent finds the entry or misses only the last component. -/
+theorem searchNode_part (s : Store) (root : Ino) (v : View) (hwf : WF s root) (hn : NamesOK s) (hv : ViewOK s v)
+    (hroot : v.root = root) (cs : List Bytes) (hne : cs ≠ []) (hall : ∀ c ∈ cs, c ≠ [] ∧ ∀ x ∈ c, x ≠ SL)
+    (hdots : ∀ c ∈ cs, c ≠ [DOT] ∧ c ≠ [DOT, DOT]) (m : SlMode) :
+    PartAgrees (walkPath s v root cs) (cs.getLast hne) (searchNode s v (SL :: joinWith SL cs) m) := by
+  unfold searchNode
+  simp only [abs_joined cs v.cwd hall hdots]
+  have hfuel := searchFuel_ge s (SL :: joinWith SL cs)
+  cases cs with
+  | nil => exact absurd rfl hne
+  | cons c cs =>
+    rw [hroot]
+    have h := loop_part hwf hroot m cs c (searchFuel s (SL :: joinWith SL (c :: cs))) root
+      (Iter.new .linux (SL :: joinWith SL (c :: cs))) [SL] 0 hall rfl rfl ?_ hwf.rootDir (fun h => absurd rfl h)
+    · rw [hroot] at h; exact h
+    · have := length_joinWith_ge SL (c :: cs) (fun x hx => (hall x hx).1)
+      simp only [List.length_cons] at this hfuel ⊢
+      omega
+
+/-- the walk of "/" : the root itself, under the empty name (`pi.Part()` after the only, failing, `Next`) -/
+theorem searchNode_root (s : Store) (v : View) (m : SlMode) :
+    (searchNode s v [SL] m).err = .exists ∧ (searchNode s v [SL] m).child = some v.root ∧
+    (searchNode s v [SL] m).parent = v.root ∧ partOf (searchNode s v [SL] m).pi = [] := by
+  have habs : abs .linux [SL] v.cwd = [SL] := by
+    simpa [joinWith] using abs_joined [] v.cwd (by simp) (by simp)
+  unfold searchNode
+  simp only [habs]
+  have hfuel := searchFuel_ge s [SL]
+  obtain ⟨k, hk⟩ : ∃ k, searchFuel s [SL] = k + 1 := ⟨_, (Nat.sub_add_cancel (by omega)).symm⟩
+  rw [hk, searchLoop]
+  simp [Iter.new, Iter.next, volumeNameLen, partOf, Iter.part, slice1]
+
 /-! ### non-vacuity: the hypotheses hold in a concrete reachable state and both sides are non-trivial there -/
 
 /-- the heap of `memfs.New()` after `Mkdir("/a", 0755)` and `Mkdir("/a/b", 0700)` (by the administrator) -/
